@@ -9,15 +9,19 @@
       off, as api.adoc says);
     * open_on_open_is_noop / close_on_closed_is_noop — opening an open packet or closing a closed one
       changes nothing but the in-section flag round trip (buffer, position, counters, log of stores).
+    * open_packet_position / is_empty_iff_at_content_start — for platforms whose packet buffers all have
+      one size: after any history the packet size is the buffer size, `at` is inside the packet, while a
+      packet is open `off_content ≤ at` (is-empty ⇔ nothing written after the packet context), and the
+      saved content size is at most the packet size (position invariant `PInv`, Proofs/RtPos.lean).
   `protocol_invariants_partial` / `finalise_flushes_partial` (DESIGN.md): the clauses "open callback
-  only when no packet is open and after a not-full answer", "close callback only on an open packet",
-  "is-empty holds exactly until the first record" and the finalisation idiom need the position
-  invariant (open ⇒ offContent ≤ at ≤ packetSize; closed ⇒ at = packetSize) which is false in the
-  corners recorded as findings (F9: platform calls ignored while tracing is disabled; degenerate
-  buffers of exactly header size with zero-size records).  They are checked on the implementation by
-  the oracle of the check and compared with the model event by event.
+  only when no packet is open and after a not-full answer", "close callback only on an open packet"
+  and the finalisation idiom additionally need "closed ⇒ at = packetSize", which is false in the
+  corners recorded as findings (F9: platform calls ignored while tracing is disabled; tracing calls
+  before the first opening).  They are checked on the implementation by the oracle of the check and
+  compared with the model event by event.
 -/
 import BVM.Proofs.RtCount
+import BVM.Proofs.CfgOKb
 namespace BVM
 
 theorem is_open_follows_open_close (cfg : Cfg) (d : DST) (ops : List Op) (bytes : Nat) (p : Plat) :
@@ -54,9 +58,41 @@ theorem close_on_closed_is_noop (cfg : Cfg) (d : DST) (ts : Nat) (s : St)
   simp only [hg, Bool.false_eq_true, if_false, St.setFlag_c_packetIsOpen, ho, Bool.not_false, if_true]
   cases s; rfl
 
+/-- **position clauses of the life cycle** (platforms whose packet buffers all have one size `L`; hypotheses as in
+    `no_store_outside_the_buffer`, Props/C02.lean): after any history — any order of calls, any toggles inside
+    callbacks, any back-end answers — the packet size is the buffer size, the write position is inside the packet, while
+    a packet is open the position is at or after the beginning of the packet content (so `is_empty` ⇔ `at = off_content`),
+    and the content size saved by the last closing is at most the packet size -/
+theorem open_packet_position (cfg : Cfg) (d : DST) (L A : Nat) (hcfg : CfgOK A cfg d)
+    (hsmall : 8 * L + A ≤ 2 ^ 32) (p : Plat) (hsb : ∀ x ∈ p.setBufs, x.2 = L)
+    (hhdr : ∀ args ∈ openArgsOf p.openArgs, hdrEndN cfg d args ≤ 8 * L)
+    (ops : List Op) (hops : OpsSmall d L A ops) :
+    (runOps cfg d ops (rtInit L p)).c.packetSize = 8 * L ∧
+    (runOps cfg d ops (rtInit L p)).c.at_ ≤ (runOps cfg d ops (rtInit L p)).c.packetSize ∧
+    ((runOps cfg d ops (rtInit L p)).c.packetIsOpen = true →
+      (runOps cfg d ops (rtInit L p)).c.offContent ≤ (runOps cfg d ops (rtInit L p)).c.at_) ∧
+    (runOps cfg d ops (rtInit L p)).c.contentSize ≤ (runOps cfg d ops (rtInit L p)).c.packetSize := by
+  have h := runOps_pinv cfg d L A p.openArgs hcfg hsmall hhdr ops hops (rtInit L p)
+    (rtInit_pinv d L A hcfg.Apos hsmall p hsb)
+  exact ⟨h.pkt, by rw [h.pkt]; exact h.at_, h.oc, by rw [h.pkt]; exact h.cz⟩
+
+/-- while a packet is open, the is-empty accessor says exactly "nothing was written after the packet context" -/
+theorem is_empty_iff_at_content_start (cfg : Cfg) (d : DST) (L A : Nat) (hcfg : CfgOK A cfg d)
+    (hsmall : 8 * L + A ≤ 2 ^ 32) (p : Plat) (hsb : ∀ x ∈ p.setBufs, x.2 = L)
+    (hhdr : ∀ args ∈ openArgsOf p.openArgs, hdrEndN cfg d args ≤ 8 * L)
+    (ops : List Op) (hops : OpsSmall d L A ops)
+    (ho : (runOps cfg d ops (rtInit L p)).c.packetIsOpen = true) :
+    (runOps cfg d ops (rtInit L p)).c.isEmpty = true ↔
+      (runOps cfg d ops (rtInit L p)).c.at_ = (runOps cfg d ops (rtInit L p)).c.offContent := by
+  have h := (open_packet_position cfg d L A hcfg hsmall p hsb hhdr ops hops).2.2.1 ho
+  simp only [Ctx.isEmpty, decide_eq_true_eq]
+  omega
+
 #print axioms is_open_follows_open_close
 #print axioms discarded_accessor_exact
 #print axioms sequence_accessor_exact
 #print axioms open_on_open_is_noop
 #print axioms close_on_closed_is_noop
+#print axioms open_packet_position
+#print axioms is_empty_iff_at_content_start
 end BVM
